@@ -33,6 +33,9 @@ def edges (n : Nat) (adj : Nat → Nat → Bool) : List (Nat × Nat) :=
 /-- the relation the code puts into the matrix: `comparison_fn` evaluated on `i < j` -/
 def Similar (n : Nat) (adj : Nat → Nat → Bool) (a b : Nat) : Prop := a < b ∧ b < n ∧ adj a b = true
 
+instance (n : Nat) (adj : Nat → Nat → Bool) (a b : Nat) : Decidable (Similar n adj a b) := by
+  unfold Similar; exact inferInstance
+
 /-- the label of position `x` in a label list (positions outside the list keep their own
     number; never used for `x < n`) -/
 def labelAt (l : List Nat) : Nat → Nat := fun x => l.getD x x
@@ -83,5 +86,58 @@ def groupLoop (lab : Nat → Nat) (n : Nat) : List (List Nat) :=
 def holds (n : Nat) (adj : Nat → Nat → Bool) (gs : List (List Nat)) (cs : List (Nat × Nat)) : Bool :=
   gs.length == (group n adj).length && (group n adj).all (fun g => gs.contains g)
     && cs.all (fun c => c.1 != c.2 && decide (c.1 < n) && decide (c.2 < n))
+
+/-! ### the stages of the code, one by one (review R-C13)
+
+  `_compute_similarity_matrix` → `coo` / `dense`;  `connected_components` → a *parameter*
+  (any label list `labs` that passes `componentsOK`);  the dictionary loop → `groupLoop`. -/
+
+/-- the coordinate list handed to `coo_array((values, (col, row)))`: for every similar pair the two
+    entries `(i, j)` and `(j, i)`, in the order the code appends them; all values are `1` -/
+def coo (n : Nat) (adj : Nat → Nat → Bool) : List (Nat × Nat) :=
+  (edges n adj).flatMap fun e => [(e.1, e.2), (e.2, e.1)]
+
+/-- entry `(a, b)` of the matrix: scipy sums the values of equal coordinates, every value is `1` -/
+def dense (n : Nat) (adj : Nat → Nat → Bool) (a b : Nat) : Nat := (coo n adj).count (a, b)
+
+/-- the `n × n` matrix as rows (`matrix.toarray()`) -/
+def denseRows (n : Nat) (adj : Nat → Nat → Bool) : List (List Nat) :=
+  (List.range n).map fun a => (List.range n).map fun b => dense n adj a b
+
+/-- the run-time contract of `connected_components(M)` (weak connectivity, the default): `labs` has
+    one label per position and two positions carry the same label iff they are in the same weak
+    component of the matrix whose non-zero pattern is `m` (components computed by the model's own
+    label merging over the symmetrised pattern) -/
+def componentsOK (n : Nat) (m : Nat → Nat → Bool) (labs : List Nat) : Bool :=
+  let l := labelList n (fun a b => m a b || m b a)
+  labs.length == n &&
+    (List.range n).all fun i => (List.range n).all fun j =>
+      (labs.getD i 0 == labs.getD j 0) == (labelAt l i == labelAt l j)
+
+/-! ### the same event at several positions (duplicates in the input list)
+
+  `ev` maps positions to event identities, `A` is the comparison function on identities; the code
+  works on positions, so duplicates are separate positions with `adj i j = A (ev i) (ev j)`. -/
+
+def evAt (ev : List Nat) (i : Nat) : Nat := ev.getD i 0
+
+def adjEv (ev : List Nat) (A : Nat → Nat → Bool) : Nat → Nat → Bool := fun i j => A (evAt ev i) (evAt ev j)
+
+/-- the groups as lists of event identities -/
+def groupEv (ev : List Nat) (A : Nat → Nat → Bool) : List (List Nat) :=
+  (group ev.length (adjEv ev A)).map fun g => g.map (evAt ev)
+
+/-- the calls as pairs of event identities -/
+def callsEv (ev : List Nat) : List (Nat × Nat) := (pairs ev.length).map fun p => (evAt ev p.1, evAt ev p.2)
+
+/-- a call on identities `(a, b)` is legitimate iff `a` and `b` stand at two different positions -/
+def callOK (ev : List Nat) (c : Nat × Nat) : Bool :=
+  (List.range ev.length).any fun i => (List.range ev.length).any fun j =>
+    i != j && evAt ev i == c.1 && evAt ev j == c.2
+
+/-- the property on an observed result when events may repeat: the observed groups (lists of
+    identities) are the model's groups as a multiset, every call is on two different positions -/
+def holdsEv (ev : List Nat) (A : Nat → Nat → Bool) (gs : List (List Nat)) (cs : List (Nat × Nat)) : Bool :=
+  gs.isPerm (groupEv ev A) && cs.all (callOK ev)
 
 end SE.Grouping
